@@ -21,22 +21,24 @@ from vlib import core
 from vlib.core import Violation
 
 CPU_LIMIT_S = 10
-WALL_WATCHDOG_S = 120
+WALL_WATCHDOG_S = 60
 CPU_BOUND_SMALL_S = 2.0
 
 
 def chain(depth, value, width=1, entries=("compute",)):
     """f0 touches the global; f_k calls f_{k-1} `width` times.  value: value-returning calls
     inside expressions; else call statements."""
-    L = ["@group(0) @binding(0) var<storage, read_write> data: array<f32, 4>;"]
+    L = ["@group(0) @binding(0) var<storage, read_write> data: array<f32, 4>;",
+         "@group(0) @binding(1) var<uniform> aux: vec4<f32>;",
+         "@group(0) @binding(2) var tex: texture_2d<f32>;"]
     if value:
-        L.append("fn fx0() -> f32 { return data[0]; }")
+        L.append("fn fx0() -> f32 { return data[0] + aux.x + f32(textureDimensions(tex).x); }")
         for k in range(1, depth + 1):
             L.append("fn fx%d() -> f32 { return %s; }" % (
                 k, " + ".join(["fx%d()" % (k - 1)] * width)))
         call = "data[1] = fx%d();" % depth
     else:
-        L.append("fn fx0() { data[0] = 1.0; }")
+        L.append("fn fx0() { data[0] = aux.x + f32(textureDimensions(tex).x); }")
         for k in range(1, depth + 1):
             L.append("fn fx%d() { %s }" % (k, " ".join(["fx%d();" % (k - 1)] * width)))
         call = "fx%d();" % depth
@@ -135,6 +137,8 @@ def families(tier):
         F.append(("tower_a8", d, tower(d, 8)))
     for n in [8, 32, 64, 128] + ([256, 400] if tier == "thorough" else []):
         F.append(("wide", n, wide(n, min(n, 200), n, min(n, 16))))
+    for n in [16, 64, 200] + ([400] if tier == "thorough" else []):
+        F.append(("wide_rustfmt", n, wide(n, min(n, 100), min(n, 32), 2)))
     if tier == "thorough":
         r = core.rng("c20")
         for k in range(400):
@@ -146,18 +150,40 @@ def families(tier):
     return F
 
 
-def run_case(binp, idx, src, workdir):
+MEM_LIMIT = 6 << 30
+
+
+def run_case(binp, idx, src, workdir, fmt=False):
     jp = os.path.join(workdir, "job%d.jsonl" % idx)
     rp = os.path.join(workdir, "res%d.jsonl" % idx)
     with open(jp, "w") as f:
-        f.write(json.dumps({"id": idx, "source": src, "opt": {}, "ref": True}) + "\n")
+        f.write(json.dumps({"id": idx, "source": src, "opt": {"fmt": True} if fmt else {},
+                            "ref": True}) + "\n")
     if os.path.exists(rp):
         os.remove(rp)
 
     def limits():
         resource.setrlimit(resource.RLIMIT_CPU, (CPU_LIMIT_S, CPU_LIMIT_S + 2))
+        # an implementation whose memory multiplies with depth must die here, not take the
+        # machine down (the driver reserves a 256 MiB stack, hence the generous ceiling)
+        resource.setrlimit(resource.RLIMIT_AS, (MEM_LIMIT, MEM_LIMIT))
     return subprocess.Popen([binp, "run", jp, rp], preexec_fn=limits, env=core.env(),
                             stdout=subprocess.DEVNULL, stderr=subprocess.PIPE, text=True), rp
+
+
+def proc_tree_ticks(pid):
+    from checkers.c19 import proc_cpu_ticks, children_of
+    pids = [pid] + children_of(pid)
+    return sum(x for x in (proc_cpu_ticks(q) for q in pids) if x is not None)
+
+
+def kill_tree(pid):
+    from checkers.c19 import children_of
+    for q in children_of(pid):
+        try:
+            os.kill(q, 9)
+        except OSError:
+            pass
 
 
 def main(tier, replay, t0):
@@ -182,9 +208,13 @@ def main(tier, replay, t0):
             rc = p.poll()
             if rc is None:
                 if time.time() - ts > WALL_WATCHDOG_S:
+                    c1 = proc_tree_ticks(p.pid)
+                    time.sleep(1.0)
+                    c2 = proc_tree_ticks(p.pid)
+                    kill_tree(p.pid)
                     p.kill()
                     p.wait()
-                    results[i] = {"status": "watchdog"}
+                    results[i] = {"status": "hang" if c2 - c1 <= 2 else "watchdog"}
                 else:
                     still.append((i, p, rp, ts))
                 continue
@@ -193,6 +223,8 @@ def main(tier, replay, t0):
                 results[i] = {"status": "done", "r": rs[0]} if rs else {"status": "lost"}
             elif rc in (-24, -9, 128 + 24, 137):
                 results[i] = {"status": "cpu_limit", "rc": rc}
+            elif rc in (-6, 134) and "memory allocation" in (p.stderr.read() or ""):
+                results[i] = {"status": "mem_limit", "rc": rc}
             else:
                 results[i] = {"status": "crash", "rc": rc, "stderr": p.stderr.read()[-800:]}
         running = still
@@ -205,11 +237,11 @@ def main(tier, replay, t0):
             if name in dead_families:
                 results[i] = {"status": "skipped_after_family_violation"}
                 continue
-            p, rp = run_case(binp, i, src, work)
+            p, rp = run_case(binp, i, src, work, fmt=name.endswith("_rustfmt"))
             running.append((i, p, rp, time.time()))
         reap(True)
         for i, r in list(results.items()):
-            if r["status"] == "cpu_limit":
+            if r["status"] in ("cpu_limit", "mem_limit", "hang"):
                 dead_families.add(fam[i][0])
 
     per_family = {}
@@ -231,6 +263,17 @@ def main(tier, replay, t0):
                                   "generation of a %d-line shader (family %s, size %d) was "
                                   "killed after %d s of CPU" % (lines, name, size, CPU_LIMIT_S),
                                   rp))
+            continue
+        if r["status"] == "mem_limit":
+            viol.append(Violation("memory-limit-exceeded", name,
+                                  "generation of a %d-line shader (family %s, size %d) ran out "
+                                  "of %d GiB of memory" % (lines, name, size, MEM_LIMIT >> 30), rp))
+            continue
+        if r["status"] == "hang":
+            viol.append(Violation("no-return", name,
+                                  "generation of a %d-line shader (family %s, size %d) did not "
+                                  "return within %d s and the process is idle (blocked)" % (
+                                      lines, name, size, WALL_WATCHDOG_S), rp))
             continue
         if r["status"] == "watchdog":
             inconclusive.append("wall-clock watchdog fired for %s/%d" % (name, size))
